@@ -150,6 +150,14 @@ Proof. exact gen_index_alpha_is_model. Qed.
 Theorem C09_fblamka_from_source : forall x y, gen_fblamka x y = fblamka x y.
 Proof. exact gen_fblamka_is_model. Qed.
 
+(* the output has the requested length (so the length check in front of verify rejects nothing the comparison would accept) *)
+Theorem C09_pwhash_output_length : forall (outlen : nat) pwd salt opslimit memlimit alg out,
+  Z.of_nat outlen < 4294967295 -> Z.of_nat (length pwd) <= MAX_U32 -> Z.of_nat (length salt) <= MAX_U32 ->
+  pwhash_params_ok outlen pwd salt opslimit memlimit -> alg = 1 \/ alg = 2 ->
+  7 * (memlimit / 1024 / 4) <= 2 ^ 32 ->
+  crypto_pwhash outlen pwd salt opslimit memlimit alg = Ok out -> length out = outlen.
+Proof. exact crypto_pwhash_length. Qed.
+
 Theorem C09_verify_iff : forall stored salt hl ops mem alg pwd,
   verify stored salt hl ops mem alg pwd = Ok tt <->
   (Z.of_nat (length stored) = hl /\ hash_with_salt pwd salt (length stored) ops mem alg = Ok stored).
